@@ -668,6 +668,36 @@ func (x *c14Run) failsWithoutIncludes() bool {
 	return !r.OK
 }
 
+// concurrent runs two tasks that render the current root at the same time.
+func (x *c14Run) concurrent(r *Rng) *c14Out {
+	simrt.SetMapOrder(simrt.OrderAsc, 0)
+	simrt.SetClock(t0)
+	curSnap = nil
+	before := simrt.Steps
+	lone := Run(EPRender, x.eng, x.tpl, "", x.b, nil)
+	steps := int64(simrt.Steps - before)
+	if lone.Panic != "" {
+		return nil
+	}
+	var res [2]Res
+	fns := []func(){
+		func() { res[0] = Run(EPRender, x.eng, x.tpl, "", x.b, nil) },
+		func() { res[1] = Run(EPRender, x.eng, x.tpl, "", x.b, nil) },
+	}
+	q := int64(pick(r, []int{3, 20, 150, 1000}))
+	rr := simrt.RunTasks(fns, []int64{steps*50 + 10000, steps*50 + 10000}, func(run []int, last int, _ uint32) (int, int64) {
+		return run[r.Intn(len(run))], 1 + int64(r.U64()%uint64(q))
+	})
+	o := &c14Out{res: lone}
+	switch {
+	case rr.Deadlock || len(rr.Overrun) > 0:
+		o.clause, o.detail = "concurrent-include", "two concurrent renders of the root did not both finish (deadlock or step budget exceeded)"
+	case res[0].Key() != lone.Key() || res[1].Key() != lone.Key():
+		o.clause, o.detail = "concurrent-include", fmt.Sprintf("two concurrent renders of the root give %s and %s; a lone render gives %s", clip(res[0].Key()), clip(res[1].Key()), clip(lone.Key()))
+	}
+	return o
+}
+
 func firstRead(fs []simrt.FSCall, p string) int {
 	for i, c := range fs {
 		if c.Path == p {
@@ -849,6 +879,18 @@ func c14Find(c *Ctx, cs *C14Case, scratch, tag string, out *CaseOut, wantSig str
 	}
 	if runOnce(0) {
 		return fails
+	}
+	// Two caller tasks render the root concurrently under a seeded schedule (snap/mark
+	// off): each must get what a lone render gives. Include is the only tag that
+	// re-enters the engine (read, compile, render) in the middle of a render.
+	if o := x.concurrent(NewRng(strSeed(src), 14)); o != nil {
+		out.Evals++
+		if c != nil {
+			c.count("fault:preemption_runs", 1)
+		}
+		if record(o, -1, "", 0) {
+			return fails
+		}
 	}
 	for i, s := range cs.History {
 		x.applyStep(s)
